@@ -621,6 +621,9 @@ impl<T: TypeConfig> RaftRoleState for LeaderState<T> {
             let new_next_id = last_entry_id + 1;
             self.update_next_index(peer_id, new_next_id)?;
             self.update_match_index(peer_id, 0)?;
+            // A peer that has not acknowledged anything yet still counts as a voter with
+            // match index 0; without an entry it would silently drop out of the quorum.
+            self.match_index.entry(peer_id).or_insert(0);
         }
         Ok(())
     }
